@@ -1783,3 +1783,61 @@ def at_index(arr, *ivs_per_axis):
         if isinstance(v, IV) and v.sort != c.sort:
             raise ShapeError(f"at_index sort mismatch: {[c.sort for c in comps]} vs {[getattr(v, 'sort', v) for v in flat]}")
     return K.rename_bound(K.subst(arr.expr, dict(zip(comps, flat))))
+
+
+# ------------------------------------------------------------------ vmap / while_loop (approximate conditionals)
+def vmap(f, in_axes=0, out_axes=0):
+    """jax.vmap over the leading axis of every mapped argument: ONE generic execution of f on the row with a fresh index
+    variable k that is external to the row's axes; the result gets k back as its leading axis"""
+    def g(*args):
+        W.count("vmap")
+        n = len(args)
+        ia = in_axes if isinstance(in_axes, (tuple, list)) else (in_axes,) * n
+        if len(ia) != n:
+            ia = tuple(ia) + (0,) * (n - len(ia))
+        k = None
+        rows = []
+        for a, ax in zip(args, ia):
+            if ax is None:
+                rows.append(a)
+                continue
+            if ax != 0:
+                raise ShimUnsupported("vmap over a non-leading axis")
+            a = _lift(a).fresh_copy()
+            lead = a.axes[0]
+            if isinstance(lead, DSum) or len(lead.comps) != 1:
+                raise ShimUnsupported("vmap over a unit / product / block axis")
+            if k is None:
+                k = IV(lead.comps[0].sort)
+            elif k.sort != lead.comps[0].sort:
+                raise ShapeError("vmap: mapped axes have different sizes")
+            rows.append(SymArr(a.axes[1:], {key: K.subst(e, {lead.comps[0]: k}) for key, e in a.blocks.items()}))
+        out = f(*rows)
+
+        def wrap(o):
+            o = _lift(o)
+            k2 = IV(k.sort)
+            return SymArr([Axis([k2])] + o.axes, {key: K.subst(e, {k: k2}) for key, e in o.blocks.items()})
+        if isinstance(out, tuple):
+            return tuple(wrap(o) for o in out)
+        return wrap(out)
+    return g
+
+
+def while_loop_contract(cond_fun, body_fun, init_val):
+    """lax.while_loop used as a fixed-point iteration for a variational parameter: replaced by its contract -- the first
+    component of the result is an ARBITRARY positive array of the shape of init_val[0] (any positive value gives a valid
+    bound, so the loop needs no invariant); interned by the initial value so that the same call yields the same atom"""
+    W.count("while_loop(contract)")
+    x0 = _lift(init_val[0]).fresh_copy()
+    p = K.normalize(x0.expr, W.ctx)
+    comps = [c for a in x0.axes for c in a.comps]
+    ext = [v for v in K._free_ivs_of_canon(p) if not _b.any(v is c for c in comps)]
+    order = ext + comps
+    form, _ = K._poly_form(p, {v: ("H", i) for i, v in enumerate(order)})
+    reg = W.__dict__.setdefault("while_registry", {})
+    if form not in reg:
+        reg[form] = f"omega_star{len(reg)}"
+    W.assumptions.add("lax.while_loop fixed point replaced by an arbitrary positive value (contract)") if hasattr(W, "assumptions") else None
+    res = SymArr(x0.axes, {(): K.atom(reg[form], *order)})
+    return (res,) + tuple(init_val[1:])
